@@ -16,7 +16,8 @@ from ..refmodel import popcount
 LEVEL = "exploration"
 RULE = ("case = one reset/step of an ICG_Gym_Linear built by ModelInstance(linear=True).get_env(); n=3..6, hidden "
         "games from 10 generator families, random sequences of allowed sizes until done, several resets per env, "
-        "numpy's global generator (used by the wrapper for tie-breaks) seeded from VERIF_SEED. Oracles: mask has "
+        "numpy's global generator (used by the wrapper for tie-breaks) seeded from VERIF_SEED; per shard nine blind episodes "
+        "that drive one large size class to exhaustion (n=8: the 70 coalitions of size 4, n=7: the 35 of size 3). Oracles: mask has "
         "length n and mask[k] == (some explorable coalition of size k is unknown); step(k) makes exactly one previously "
         "unknown coalition of size k known and nothing else, info reports its id, reward and done equal the inner "
         "env's after the step; observation has length n and equals the per-size sums (explicit loops) of the inner "
@@ -24,7 +25,7 @@ RULE = ("case = one reset/step of an ICG_Gym_Linear built by ModelInstance(linea
         ">= 2 unknown coalitions of the requested size.")
 SHARDS = {"quick": 4, "thorough": 16}
 BUDGET = {"quick": 40, "thorough": 360}
-REQUIRED = ["steps_checked", "resets_checked", "mask_checks", "episodes_to_done", "steps_on_arbitrary_hidden_games", "steps_without_mask_query"]
+REQUIRED = ["size_classes_exhausted", "steps_checked", "resets_checked", "mask_checks", "episodes_to_done", "steps_on_arbitrary_hidden_games", "steps_without_mask_query"]
 
 GENS = ["factory", "noisy_factory", "factory_cheerleader_next", "graph_cycle", "graph_random", "xos", "xs", "oxs",
         "k_budget_generator", "noisy_factory_square", "covg_fn_generator", "graph_internet"]
@@ -112,6 +113,13 @@ def episode(ctx, case) -> None:
                     ctx.count("episodes_to_done")
                     break
             k = rng.choice([int(i) for i in np.nonzero(mask)[0]])
+            if case.get("prefer_size") is not None:
+                # drive ONE large size class to exhaustion: the last few coalitions of a big class are where a sampler
+                # that guesses positions (rejection sampling, cached index lists) runs out of luck
+                if not mask[case["prefer_size"]]:
+                    ctx.count("size_classes_exhausted")
+                    break
+                k = case["prefer_size"]
             before = np.array(inner.incomplete_game.are_values_known(), dtype=bool)
             cands = [m for m in explor if popcount(m) == k and not before[m]]
             try:
@@ -200,6 +208,10 @@ def run(ctx) -> None:
     episode(ctx, {"n": 4, "generator": "noisy_factory", "computer": "superadditive_cached", "gap": "l1_norm", "seed": rng.randint(0, 10**6),
                   "np_seed": rng.randint(0, 2**31 - 1), "budget": None, "episodes": 1, "scale": 1.0, "offset": 0.0,
                   "direct_inner_steps": False, "blind_steps": True})
+    for n_big, k_big, eps in ((8, 4, 6), (7, 3, 3)):       # 70 coalitions of size 4, 35 of size 3
+        episode(ctx, {"n": n_big, "generator": "factory", "computer": "superadditive_cached", "gap": "l1_norm", "seed": rng.randint(0, 10**6),
+                      "np_seed": rng.randint(0, 2**31 - 1), "budget": None, "episodes": eps, "scale": 1.0, "offset": 0.0,
+                      "direct_inner_steps": False, "blind_steps": True, "prefer_size": k_big})
     i_arb = 0
     while not ctx.out_of_time(1.5):
         i_arb += 1
